@@ -120,12 +120,29 @@ func driverRunX(c *core.Ctx, id string, work string, idx int, managed bool, r *r
 	for s := 0; s < steps && c.Violations() == 0; s++ {
 		step := ""
 		switch x := r.Intn(100); {
-		case x < 52:
+		case x < 51:
 			if err := w.RandomCommit(delFrac, expFrac); err != nil {
 				c.Violation(id+"|commit-error", err.Error(), w.Witness())
 				return
 			}
 			continue
+		case x < 55:
+			// rotate with the flusher held: a few more commits land in the new memtable while the
+			// rotated one is still unflushed, and every read must merge both with the levels
+			if gc {
+				continue
+			}
+			if !w.FlushHeld(func() {
+				for j := 0; j < 1+r.Intn(4); j++ {
+					_ = w.RandomCommit(delFrac, expFrac)
+				}
+				st := w.CheckInvariance("flush-held")
+				c.Count("invariance.reads_checked", st.Gets+st.IterItems)
+				c.Count("step.flush-held", 1)
+			}) {
+				continue
+			}
+			step = "flush"
 		case x < 66:
 			if !w.Flush() {
 				continue
